@@ -4213,7 +4213,8 @@ def tie_notes(part):
     failed = 0
     succeeded = 0
     for i, note in enumerate(list(part.iter_all(Note))):
-        if note.symbolic_duration is None:
+        # estimate_symbolic_duration reports an un-notatable value as {} (not None)
+        if not note.symbolic_duration:
             splits = find_tie_split(
                 note.start.t, note.end.t, int(divs_map(note.start.t)), max_splits
             )
@@ -4278,7 +4279,7 @@ def split_note(part, note, splits):
     # TODO: we shouldn't do this, but for now it's a good sanity check
     assert len(splits) > 0
     # TODO: we shouldn't do this, but for now it's a good sanity check
-    assert note.symbolic_duration is None
+    assert not note.symbolic_duration
     part.remove(note)
     orig_tie_next = note.tie_next
     slur_stops = note.slur_stops
